@@ -98,7 +98,3 @@ func cmdVC(args []string) {
 	fmt.Println(cnt)
 }
 
-func cmdCheck(args []string) int {
-	fmt.Fprintln(os.Stderr, "check: not implemented yet")
-	return 2
-}
